@@ -42,6 +42,9 @@ func tablesMain(args []string) {
 	for i, v := range li.VerifHexDecodeMap() {
 		fmt.Fprintf(w, "H %d %d\n", i, v)
 	}
+	for i, n := range li.VerifDispatch() {
+		fmt.Fprintf(w, "D %d %s\n", i, n)
+	}
 	// reachability: what the package's own look-ups answer for every listed name, as listed and in lower case
 	for _, k := range keys {
 		fmt.Fprintf(w, "LK %s %d %d\n", hx(k), li.VerifLookupKeyword(k), li.VerifLookupKeyword(strings.ToLower(k)))
